@@ -15,6 +15,7 @@
 import FFS.Model.AbiIO
 import FFS.Spec.Abi
 import FFS.Lemmas.Bytes
+import FFS.Props.C19
 namespace FFS.Props.C02
 open FFS FFS.Model.Abi
 
@@ -447,6 +448,172 @@ theorem uint256_ok : ∀ info ∈ Gen.AbiTypeTable.table, info.name = "uint" →
   have hall : Gen.AbiTypeTable.table.all (fun i => i.name != "uint" || decide (codecOf i.enc = .uint)) = true := by decide
   have := List.all_eq_true.mp hall info hmem
   simpa [hn] using this
+
+/-! ### accepted inputs: exactly the value they denote, or rejected -/
+
+section inputs
+open FFS.Model.EthTypes
+
+theorem bitLen_ge (n m : Nat) (h : bitLen n ≤ m) : n < 2 ^ m := by
+  unfold bitLen at h
+  split at h
+  · rename_i h0; subst h0; exact Nat.pow_pos (by decide)
+  · rename_i hn
+    exact (Nat.log2_lt hn).mp (by omega)
+
+/-- **No accepted integer is wrapped, rounded or sign-changed (leaf).** If the integer encoder accepts `z` for a width
+    `m ≤ 256` at all, `z` lies in the declared range and the word is the unsigned / two's-complement encoding of
+    exactly `z`. -/
+theorem encodeElem_int_exact (info : ElemInfo) (m : Nat) (z : Int) (w : Bytes) (dyn : Bool) (hm : m ≤ 256)
+    (hc : codecOf info.enc = .uint ∨ (codecOf info.enc = .sint ∧ 8 ≤ m ∧ m % 8 = 0))
+    (he : encodeElem info m (.int z) = .ok (w, dyn)) :
+    dyn = false ∧
+    ((codecOf info.enc = .uint ∧ 0 ≤ z ∧ z < 2 ^ m ∧ w = toBE 32 z.toNat) ∨
+     (codecOf info.enc = .sint ∧ -(2 : Int) ^ (m - 1) ≤ z ∧ z < 2 ^ (m - 1) ∧ w = toBE 32 (z % 2 ^ 256).toNat)) := by
+  unfold encodeElem at he
+  rcases hc with hc | ⟨hc, h8, hmod⟩
+  · rw [hc] at he
+    simp only [] at he
+    by_cases hneg : z < 0
+    · rw [if_pos hneg] at he; cases he
+    · rw [if_neg hneg] at he
+      by_cases hbl : bitLen z.toNat > m
+      · rw [if_pos hbl] at he; cases he
+      · rw [if_neg hbl] at he
+        have hlt : z.toNat < 2 ^ m := bitLen_ge _ _ (by omega)
+        have hfill : fillBytes? z.toNat 32 = .ok (toBE 32 z.toNat) := by
+          have h1 : 2 ^ m ≤ 2 ^ 256 := Nat.pow_le_pow_right (by decide) hm
+          have h2 : (256 : Nat) ^ 32 = 2 ^ 256 := by rw [show (256 : Nat) = 2 ^ 8 from rfl, ← Nat.pow_mul]
+          have : z.toNat < 256 ^ 32 := by omega
+          unfold fillBytes?
+          rw [if_pos this]
+        rw [hfill] at he
+        simp only [Outcome.bind] at he
+        injection he with he; injection he with he1 he2
+        have hz : (z.toNat : Int) = z := Int.toNat_of_nonneg (by omega)
+        have hzlt : z < 2 ^ m := by
+          have : ((2 ^ m : Nat) : Int) = (2 : Int) ^ m := by simp
+          omega
+        exact ⟨he2.symm, Or.inl ⟨hc, by omega, hzlt, he1.symm⟩⟩
+  · rw [hc] at he
+    simp only [] at he
+    by_cases hfit : checkSignedIntFits z m = true
+    · rw [if_pos hfit] at he
+      injection he with he; injection he with he1 he2
+      refine ⟨he2.symm, Or.inr ⟨hc, ?_, ?_, by rw [← he1]; rfl⟩⟩
+      · unfold checkSignedIntFits at hfit
+        by_cases h0 : z = 0
+        · subst h0
+          have : (0 : Int) < 2 ^ (m - 1) := Int.pow_pos (by decide)
+          omega
+        · rw [if_neg h0] at hfit
+          by_cases hp : z > 0
+          · have : (0 : Int) < 2 ^ (m - 1) := Int.pow_pos (by decide)
+            omega
+          · rw [if_neg hp] at hfit
+            simp only [Bool.and_eq_true, decide_eq_true_eq] at hfit
+            exact hfit.2
+      · unfold checkSignedIntFits at hfit
+        by_cases h0 : z = 0
+        · subst h0; exact Int.pow_pos (by decide)
+        · rw [if_neg h0] at hfit
+          by_cases hp : z > 0
+          · rw [if_pos hp] at hfit
+            simp only [Bool.and_eq_true, decide_eq_true_eq] at hfit
+            omega
+          · have : (0 : Int) < 2 ^ (m - 1) := Int.pow_pos (by decide)
+            omega
+    · rw [if_neg hfit] at he; cases he
+
+/-- **An integer input is encoded as exactly the integer it denotes, or rejected** (JSON text or Go value, any integer
+    type of the table's integer reader): whenever `walkInput` followed by `encode` succeeds on an integer leaf, the
+    input was read as some integer `z` by `getIntegerFromInterface` (which accepts a text only when it denotes exactly
+    `z`: `input_text_sound`), `z` is in the range of the declared width, and the word is the encoding of `z`. -/
+theorem input_integer_exact (info : ElemInfo) (sfx : String) (m n : Nat) (v : Ext) (cv : CV) (w : Bytes) (dyn : Bool)
+    (hr : info.reader = "getIntegerFromInterface") (hm : m ≤ 256)
+    (hc : codecOf info.enc = .uint ∨ (codecOf info.enc = .sint ∧ 8 ≤ m ∧ m % 8 = 0))
+    (hwalk : walkInput (.elem info sfx m n) v = .ok cv) (henc : encode (.elem info sfx m n) cv = .ok (w, dyn)) :
+    ∃ z : Int, getInteger v = .ok z ∧ cv = .int z ∧
+      ((codecOf info.enc = .uint ∧ 0 ≤ z ∧ z < 2 ^ m ∧ w = toBE 32 z.toNat) ∨
+       (codecOf info.enc = .sint ∧ -(2 : Int) ^ (m - 1) ≤ z ∧ z < 2 ^ (m - 1) ∧ w = toBE 32 (z % 2 ^ 256).toNat)) := by
+  simp only [walkInput] at hwalk
+  unfold readElementary at hwalk
+  rw [if_pos hr] at hwalk
+  cases hg : getInteger v with
+  | err => rw [hg] at hwalk; cases hwalk
+  | panic => rw [hg] at hwalk; cases hwalk
+  | ok z =>
+    rw [hg] at hwalk
+    simp only [Outcome.map] at hwalk
+    injection hwalk with hwalk
+    subst hwalk
+    simp only [encode] at henc
+    exact ⟨z, rfl, rfl, (encodeElem_int_exact info m z w dyn hm hc henc).2⟩
+
+/-- what `getIntegerFromInterface` accepts from a text (JSON number literal or string): the text is an integer literal
+    denoting `z` (`setString0`: decimal / 0x / 0b / 0o forms of `big.Int.SetString(s, 0)`), or it is no integer literal
+    and both external parsers (`big.ParseFloat`, `big.Rat`) say it denotes exactly the integer `z`. -/
+theorem input_text_sound (s : String) (fl rat : ExtNum) (z : Int)
+    (h : getInteger (.num s fl rat) = .ok z ∨ getInteger (.str s fl rat) = .ok z) :
+    setString0 s.toList = some z ∨ (setString0 s.toList = none ∧ fl = .int z ∧ (rat = .int z ∨ rat = .fail)) := by
+  rcases h with h | h <;> exact C19.bigint_sound (by simpa [getInteger] using h)
+
+/-- **Non-integral text or JSON numbers for integer types are rejected.** -/
+theorem input_fraction_rejected (info : ElemInfo) (sfx : String) (m n : Nat) (s : String) (fl : ExtNum)
+    (hr : info.reader = "getIntegerFromInterface") (hs : setString0 s.toList = none) :
+    walkInput (.elem info sfx m n) (.num s fl .notInt) = .err ∧ walkInput (.elem info sfx m n) (.str s fl .notInt) = .err := by
+  have := C19.bigint_rejects_fraction s.toList fl hs
+  simp [walkInput, readElementary, hr, getInteger, this, Outcome.map]
+
+/-- a non-integral Go float is rejected as well -/
+theorem input_float_rejected (info : ElemInfo) (sfx : String) (m n : Nat) (z : Int)
+    (hr : info.reader = "getIntegerFromInterface") :
+    walkInput (.elem info sfx m n) (.float false z) = .err := by
+  simp [walkInput, readElementary, hr, getInteger, Outcome.map]
+
+theorem walkSame_length (t : Ty) : ∀ (xs : List Ext) (cs : List CV), walkSame t xs = .ok cs → cs.length = xs.length
+  | [], cs, h => by simp only [walkSame] at h; injection h with h; subst h; rfl
+  | x :: xs, cs, h => by
+    simp only [walkSame] at h
+    cases hx : walkInput t x with
+    | err => rw [hx] at h; cases h
+    | panic => rw [hx] at h; cases h
+    | ok c =>
+      rw [hx] at h
+      simp only [] at h
+      cases hr : walkSame t xs with
+      | err => rw [hr] at h; cases h
+      | panic => rw [hr] at h; cases h
+      | ok cs' =>
+        rw [hr] at h
+        simp only [Outcome.map] at h
+        injection h with h; subst h
+        simp [walkSame_length t xs cs' hr]
+
+/-- **Wrong array arity is rejected**: a fixed-size array `T[k]` is accepted only from a slice of exactly `k` elements,
+    and the value tree has exactly `k` children. -/
+theorem input_arity (t : Ty) (k : Nat) (v : Ext) (cv : CV) (h : walkInput (.farr t k) v = .ok cv) :
+    ∃ xs cs, asSlice v = some xs ∧ xs.length = k ∧ cv = .kids cs ∧ cs.length = k := by
+  simp only [walkInput] at h
+  cases hs : asSlice v with
+  | none => rw [hs] at h; cases h
+  | some xs =>
+    rw [hs] at h
+    simp only [] at h
+    by_cases hk : xs.length = k
+    · rw [if_neg (by simpa using hk)] at h
+      cases hw : walkSame t xs with
+      | err => rw [hw] at h; cases h
+      | panic => rw [hw] at h; cases h
+      | ok cs =>
+        rw [hw] at h
+        simp only [Outcome.map] at h
+        injection h with h
+        exact ⟨xs, cs, rfl, hk, h.symm, by rw [walkSame_length t xs cs hw, hk]⟩
+    · rw [if_pos (by simpa using hk)] at h; cases h
+
+
+end inputs
 
 /-! ### non-vacuity of the hypotheses -/
 
